@@ -12,9 +12,15 @@ Notation top := (DPlain false).
 
 Inductive source := SDirect | SEval.
 
+(* [again]: decoding the same document once more INTO the object just decoded left it unchanged;
+   [into_orig]: decoding the document of the original into a copy of the original left it unchanged
+   (both computed by the harness on its reflection dumps; decoding into a value that is not fresh) *)
 Inductive case :=
 | CRound (src : source) (t : gty) (orig : gval) (j1 : option json) (rt : option gval) (j2 : option json)
-| CRaw (t : gty) (jin : json) (rt : option gval) (j2 : option json).
+         (again into_orig : bool)
+| CRaw (t : gty) (jin : json) (rt : option gval) (j2 : option json) (again : bool)
+| CCrash (src : option source) (t : gty) (orig : gval).
+    (* json.Marshal / json.Unmarshal panicked, killed the process or did not return; src = None: a raw document *)
 
 Definition agree_json (m : res json) (o : option json) : bool :=
   match m, o with
@@ -40,14 +46,15 @@ Definition agree_remarshal (t : gty) (rt : option gval) (j2 : option json) : boo
 
 Definition mismatch (c : case) : bool :=
   match c with
-  | CRound _ t orig j1 rt j2 =>
+  | CCrash _ _ _ => true            (* the model never crashes *)
+  | CRound _ t orig j1 rt j2 _ _ =>
       negb (agree_json (marshal tb fuel t orig) j1
             && match j1 with
                | Some j => agree_gval (unmarshal tb fuel top t j) rt
                | None => match rt with None => true | Some _ => false end
                end
             && agree_remarshal t rt j2)
-  | CRaw t jin rt j2 =>
+  | CRaw t jin rt j2 _ =>
       negb (agree_gval (unmarshal tb fuel top t jin) rt && agree_remarshal t rt j2)
   end.
 
@@ -67,29 +74,71 @@ Definition valid_numbers (t : gty) (v : gval) : bool :=
 Definition opt_json_eqb (a b : option json) : bool :=
   match a, b with Some x, Some y => json_eqb x y | None, None => true | _, _ => false end.
 
+(* What "equal" means for a value read back: the same Go value, except that a non-nil EMPTY slice/map in an omitempty
+   field where nil and empty mean the same (Model/ApiJson.v: every such field but [lossy_fields]) may come back nil.
+   [nilify_h] is that normalisation of the ORIGINAL (specification level; the five lossy fields are left alone, so
+   losing `[]` / `{}` of an Expr stays a failure). *)
+Fixpoint nilify_h_fields (nm : string) (nil_of : gty -> gval -> gval) (fs : list field) (vs : list gval) : list gval :=
+  match fs, vs with
+  | f :: fs', v :: vs' =>
+      (if f_skip f then v
+       else if f_omit f && nonnil_empty v && negb (lossy_field nm (f_go f)) then GNil
+       else nil_of (f_ty f) v) :: nilify_h_fields nm nil_of fs' vs'
+  | _, _ => vs
+  end.
+
+Fixpoint nilify_h (n : nat) (t : gty) (v : gval) {struct n} : gval :=
+  match n with
+  | O => v
+  | S n' =>
+      match t, v with
+      | TAny, GIface t' v' => GIface t' (nilify_h n' t' v')
+      | TPtr t', GPtr v' => GPtr (nilify_h n' t' v')
+      | TSlice t', GSlice l => GSlice (map (nilify_h n' t') l)
+      | TMap t', GMap l => GMap (map (fun kv => (fst kv, nilify_h n' t' (snd kv))) l)
+      | TNamed nm, GStruct vs =>
+          match lookup_sd tb nm with
+          | Some sd => GStruct (nilify_h_fields nm (nilify_h n') (sd_fields sd) vs)
+          | None => v
+          end
+      | _, _ => v
+      end
+  end.
+
+Definition in_domain (src : source) (t : gty) (orig : gval) : bool :=
+  match src with SEval => true | SDirect => typed t orig && valid_numbers t orig end.
+
 (* the specification, on the implementation's observations only: the value is serialisable, comes back equal
-   (nil vs empty, json.Number vs float64, exact number text, exact bytes), and serialises to the same JSON again.
+   (nil vs empty where it matters, json.Number vs float64, exact number text, exact bytes), serialises to the same
+   JSON again, and decoding into a value that is not fresh (the object just decoded; a copy of the original) changes
+   nothing.  A crash / panic / hang of the JSON layer is a failure.
    Domain: every evaluation result; every well-formed directly built tree with valid number text. *)
 Definition spec_fail (c : case) : bool :=
   match c with
-  | CRound src t orig j1 rt j2 =>
-      (match src with SEval => true | SDirect => typed t orig && valid_numbers t orig end)
+  | CRound src t orig j1 rt j2 again into_orig =>
+      in_domain src t orig
       && negb (match j1, rt with
-               | Some _, Some v => gval_eqb false orig v && opt_json_eqb j1 j2
+               | Some _, Some v => gval_eqb false (nilify_h fuel t orig) v && opt_json_eqb j1 j2 && again && into_orig
                | _, _ => false
                end)
-  | CRaw _ _ _ _ => false
+  | CRaw _ _ rt _ again => match rt with Some _ => negb again | None => false end
+  | CCrash (Some src) t orig => in_domain src t orig
+  | CCrash None _ _ => true
   end.
 
-(* Only the findings still recorded in known-findings.txt are excused.  The classes kf_nonfinite (invalid
-   json.Number text) and kf_any_number (a number in an `any` decoded without UseNumber) were repaired in esc
-   (load-time diagnostic for non-finite floats; Expr.UnmarshalJSON): an evaluation result inside them is a NEW
+(* Only the findings still recorded in known-findings.txt are excused, and (DESIGN §6 rule 2) only where the model -
+   which reproduces both findings - predicts exactly what the implementation wrote, read back and wrote again:
+     C18-empty-omitted, narrowed to [kf_empty_lossy]: a non-nil empty slice/map in one of the five omitempty fields
+       whose being nil is information (Expr.List/Object/Interpolate/Symbol, Interpolation.Value);
+     C18-non-utf8.
+   The classes kf_nonfinite and kf_any_number were repaired in esc: an evaluation result inside them is a NEW
    violation.  Directly built trees with invalid number text or with a number the decoder cannot keep are outside
-   the domain ("valid number text"), see [spec_fail]. *)
+   the domain ("valid number text"), see [in_domain]. *)
 Definition known (c : case) : bool :=
   match c with
-  | CRound _ t orig _ _ _ => kf_empty_omitted tb fuel top t orig || kf_non_utf8 tb fuel top t orig
-  | CRaw _ _ _ _ => false
+  | CRound _ t orig _ _ _ _ _ =>
+      (kf_empty_lossy tb fuel top t orig || kf_non_utf8 tb fuel top t orig) && negb (mismatch c)
+  | _ => false
   end.
 
 Definition spec_fail_new (c : case) : bool := spec_fail c && negb (known c).
@@ -97,8 +146,8 @@ Definition spec_fail_known (c : case) : bool := spec_fail c && known c.
 
 Definition nontrivial (c : case) : bool :=
   match c with
-  | CRound _ _ orig _ _ _ => match orig with GNil => false | _ => true end
-  | CRaw _ _ _ _ => true
+  | CRound _ _ orig _ _ _ _ _ => match orig with GNil => false | _ => true end
+  | _ => true
   end.
 
 (* ---- wire format ---- *)
@@ -187,20 +236,27 @@ Definition dec_src (x : sexp) : option source :=
 
 Definition decode (x : sexp) : option case :=
   match x with
-  | SList [Atom "round"; s; t; o; j1; rt; j2] =>
+  | SList [Atom "round"; s; t; o; j1; rt; j2; ag; io] =>
       match dec_src s, dec_ty t, dec_gval o with
       | Some s', Some t', Some o' =>
-          match dec_opt dec_json j1, dec_opt dec_gval rt, dec_opt dec_json j2 with
-          | Some a, Some b, Some c => Some (CRound s' t' o' a b c)
-          | _, _, _ => None
+          match dec_opt dec_json j1, dec_opt dec_gval rt, dec_opt dec_json j2, atom_bool ag, atom_bool io with
+          | Some a, Some b, Some c, Some g, Some i => Some (CRound s' t' o' a b c g i)
+          | _, _, _, _, _ => None
           end
       | _, _, _ => None
       end
-  | SList [Atom "raw"; t; jin; rt; j2] =>
-      match dec_ty t, dec_json jin, dec_opt dec_gval rt, dec_opt dec_json j2 with
-      | Some t', Some j, Some b, Some c => Some (CRaw t' j b c)
-      | _, _, _, _ => None
+  | SList [Atom "raw"; t; jin; rt; j2; ag] =>
+      match dec_ty t, dec_json jin, dec_opt dec_gval rt, dec_opt dec_json j2, atom_bool ag with
+      | Some t', Some j, Some b, Some c, Some g => Some (CRaw t' j b c g)
+      | _, _, _, _, _ => None
       end
+  | SList [Atom "crash"; s; t; o] =>
+      match dec_src s, dec_ty t, dec_gval o with
+      | Some s', Some t', Some o' => Some (CCrash (Some s') t' o')
+      | _, _, _ => None
+      end
+  | SList [Atom "crash"; Atom "raw"; t] =>
+      match dec_ty t with Some t' => Some (CCrash None t' GNil) | None => None end
   | _ => None
   end.
 
